@@ -96,7 +96,12 @@ class Gateway:
         if self.persistence:
             await self.persistence.load()
             await self.persistence.start()
-        await self.transport.connect()
+        try:
+            await self.transport.connect()
+        except BaseException:
+            if self.persistence:
+                await self.persistence.stop()
+            raise
         return self
 
     async def __aexit__(
